@@ -27,6 +27,10 @@ CLAIMED["C11"] = dict(engine="execsim", design="DESIGN.md §5 C11, Appendix A",
    text="Refinement against a small executable reference model (model.Pending, written from the documented semantics): histories are reached by seeded operator actions (add newer / older file, checkpoint, dirty database, apply n with exec-order / baseline / allow-dirty, injected failing statements that leave partial revisions) and after every apply the executed statements and the error class are compared with the model's decision.",
    note="Fixed-width versions; stub database and revision store in the API half; the CLI half (status / apply n / set on a real SQLite file) is part clisim-c11 when present in the evidence.",
    technique="deterministic simulation: seeded operation + fault sequences, refinement against an executable reference model, tape shrinking + exact replay")
+CLAIMED["C06"] = dict(engine="execsim", design="DESIGN.md §5 C06",
+   text="Seeded search over interleavings of directory writers (API: WritePlan, WriteCheckpoint, WriteSumFile, CopyFiles; CLI: migrate new/hash/diff/import) with disk faults at the Dir seam (failed, torn, error-after-durable writes of migration files and of atlas.sum) and adversary edits of the storage; oracle = Validate / `migrate validate` / `migrate apply` agree with an independent reference implementation of the sum format, every successful writer leaves the directory valid, every tamper of a valid directory is detected, errors are checksum errors, never a panic.",
+   note="Torn writes are simulated at the Dir interface, not at the kernel; SHA-256 collisions excluded; non-.sql files and bodies of sum-ignored files are outside the integrity domain.",
+   technique="deterministic simulation: seeded writer/adversary schedules with injected disk faults, reference-model oracle, tape shrinking + exact replay")
 
 NOT_BUILT = {
  "C01": "not built yet in this tree (planned claim, DESIGN \u00a75); listed here so that every unclaimed property has an entry",
